@@ -157,7 +157,11 @@ class TypedSymbol:
                 if parent:
                     tdef_var = parent.variable_map.get(self.basename)
             if tdef_var:
-                return tdef_var.type
+                if tdef_var.scope is None:
+                    return tdef_var.type
+                # The member has just been entered into its scope's table: read the entry directly,
+                # because `tdef_var.type` would come back here for a member of deferred type
+                return tdef_var.scope.symbol_attrs.lookup(tdef_var.name)
 
         return _type
 
